@@ -1,4 +1,4 @@
-import Qfproto.GrouperGrow
+import QF.Core.GrouperGrow
 /-! Prototype: assembly — every insertion preserves the invariants; groupBy partitions the rows. -/
 namespace G
 
